@@ -29,6 +29,7 @@ func init() {
 			em = append(em, [2]string{n, canonFunc(p, pf[n])})
 		}
 		g.pf("def emission : List (String × String) :=\n  %s\n\n", leanPairList(em))
+		g.pf("def naming : List (String × String) :=\n  %s\n\n", leanPairList([][2]string{{"MethodName", canonFunc(c, cf["MethodName"])}}))
 		g.pf("end GooseVerif.Gen.Printer\n")
 		g.write()
 	}})
